@@ -28,7 +28,8 @@ def _bootstrap():
     if not os.path.abspath(parso.__file__).startswith(os.path.abspath(repo) + os.sep):
         print('HARNESS-ERROR: parso imported from %s, not from %s' % (parso.__file__, repo))
         sys.exit(2)
-    sys.setrecursionlimit(10000)
+    if len(sys.argv) > 2 and 'C18' in sys.argv[1:4]:
+        sys.setrecursionlimit(10000)          # the state fingerprint walks deep object graphs
     from dst import pool
     pool.limit_memory()
 
